@@ -8,29 +8,23 @@ open HdVerif HdVerif.Gen
 
 /-! ## reflexivity -/
 
-theorem entryWithin_refl (t a : Rat) (ht : 0 ≤ t) : EntryWithin t a a := by
-  unfold EntryWithin
-  have h1 : rabs (a - a) = 0 := by rw [sub_self]; exact rabs_zero
-  have h2 := rabs_nonneg a
-  have h3 : (0 : Rat) ≤ rtolDefault * rabs a := mul_nonneg (by unfold rtolDefault; norm_num) h2
-  rw [h1]; linarith
+theorem entryWithin_refl (t a : Rat) : EntryWithin t a a := Or.inr rfl
 
-theorem vecWithin_refl (t : Rat) (v : V3) (ht : 0 ≤ t) : VecWithin t v v :=
-  ⟨entryWithin_refl t _ ht, entryWithin_refl t _ ht, entryWithin_refl t _ ht⟩
+theorem vecWithin_refl (t : Rat) (v : V3) : VecWithin t v v :=
+  ⟨entryWithin_refl t _, entryWithin_refl t _, entryWithin_refl t _⟩
 
-theorem affineWithin_refl (g : Geom) (tol : Option Rat) (ht : ∀ t, tol = some t → 0 ≤ t) : AffineWithin g g tol := by
+theorem affineWithin_refl (g : Geom) (tol : Option Rat) : AffineWithin g g tol := by
   cases tol with
   | none => exact ⟨fun _ => rfl, rfl⟩
-  | some t => exact ⟨fun a => vecWithin_refl t _ (ht t rfl), vecWithin_refl t _ (ht t rfl)⟩
+  | some t => exact ⟨fun a => vecWithin_refl t _, vecWithin_refl t _⟩
 
 theorem noForConflict_refl (g : Geom) : NoForConflict g g := by
   intro u v hu hv
   rw [hu] at hv
   exact Option.some.inj hv
 
-theorem geometryEqual_refl' (g : Geom) (tol : Option Rat) (ht : ∀ t, tol = some t → 0 ≤ t) :
-    geometryEqual g g tol = .ok true :=
-  (geometryEqual_true_iff g g tol).mpr ⟨fun _ => rfl, rfl, noForConflict_refl g, affineWithin_refl g tol ht⟩
+theorem geometryEqual_refl' (g : Geom) (tol : Option Rat) : geometryEqual g g tol = .ok true :=
+  (geometryEqual_true_iff g g tol).mpr ⟨fun _ => rfl, rfl, noForConflict_refl g, affineWithin_refl g tol⟩
 
 /-! ## symmetry -/
 
@@ -70,7 +64,7 @@ theorem entryWithin_of_abs {t a b : Rat} (h : rabs (a - b) ≤ t) : EntryWithin 
   have ha : (0 : Rat) ≤ rtolDefault * rabs a := mul_nonneg (by unfold rtolDefault; norm_num) (rabs_nonneg a)
   have hb : (0 : Rat) ≤ rtolDefault * rabs b := mul_nonneg (by unfold rtolDefault; norm_num) (rabs_nonneg b)
   rw [rabs_sub_comm b a]
-  constructor <;> linarith
+  constructor <;> left <;> linarith
 
 theorem affineWithin_of_abs {g h : Geom} {t : Rat} (a : AffineAbsWithin g h t) :
     AffineWithin g h (some t) ∧ AffineWithin h g (some t) := by
@@ -86,12 +80,21 @@ theorem rabs_triangle (a b c : Rat) : rabs (a - c) ≤ rabs (a - b) + rabs (b - 
   unfold rabs
   split <;> split <;> split <;> linarith
 
-theorem entryWithin_trans {t1 t2 a b c : Rat} (h1 : EntryWithin t1 a b) (h2 : EntryWithin t2 b c) :
+theorem entryWithin_trans {t1 t2 a b c : Rat} (h1 : EntryWithin t1 a b) (h2 : EntryWithin t2 b c) (p1 : 0 ≤ t1) (p2 : 0 ≤ t2) :
     rabs (a - c) ≤ t1 + t2 + rtolDefault * (rabs b + rabs c) := by
   unfold EntryWithin at h1 h2
+  have hb : (0 : Rat) ≤ rtolDefault * rabs b := mul_nonneg (by unfold rtolDefault; norm_num) (rabs_nonneg b)
+  have hc : (0 : Rat) ≤ rtolDefault * rabs c := mul_nonneg (by unfold rtolDefault; norm_num) (rabs_nonneg c)
   have := rabs_triangle a b c
   rw [mul_add]
-  linarith
+  rcases h1 with h1 | rfl <;> rcases h2 with h2 | rfl
+  · linarith
+  · have : rabs (b - b) = 0 := by rw [sub_self]; exact rabs_zero
+    linarith
+  · have : rabs (a - a) = 0 := by rw [sub_self]; exact rabs_zero
+    linarith
+  · have : rabs (a - a) = 0 := by rw [sub_self]; exact rabs_zero
+    linarith
 
 /-! ## the index transformer in both directions -/
 
